@@ -220,3 +220,20 @@ M("C20-R3-docker-path-raw", "C20", [(DK, "pattern = regex::escape(&path).add", "
 M("C20-R3-docker-star-crosses-dirs", "C20", [(DK, '"*" => "[^/]*",', '"*" => ".*",')], ["glob-table_convert_dockerignore_glob"])
 M("C20-R4-docker-negation-ignored", "C20", [(DK, "        if is_match && dockerignore_filter.negate {\n            return false;\n        }\n", "")], ["verdict_docker-negation"])
 M("C20-R4-hg-syntax-swapped", "C20", [(HG, 'if s == "regexp" {\n            return Ok(Syntax::Regexp);', 'if s == "regexp" {\n            return Ok(Syntax::Glob);')], ["verdict_hg-syntax"])
+
+# ---------------------------------------------------------------- C10
+MA = "src/main.rs"
+M("C10-R1-filesize-guard-dropped", "C10", [(U, 'if length > 2 && string.ends_with("kb") {', 'if string.ends_with("kb") {')], ["parse_filesize"])
+M("C10-R1-next-lexem-index", "C10", [(P, "let lexem = self.lexems.get(self.index);\n        self.index += 1;\n\n        lexem.cloned()", "let lexem = self.lexems[self.index].clone();\n        self.index += 1;\n\n        Some(lexem)")], ["next_lexem"])
+M("C10-R1-limit-unwrap", "C10", [(P, "                        if let Ok(limit) = s.parse() {\n                            return Ok(limit);\n                        } else {\n                            return Err(\"Error parsing limit\");\n                        }", "                        return Ok(s.parse().unwrap());")], ["parse_limit"])
+M("C10-R1-canonical-unwrap", "C10", [(S, "        if canonical_path.is_err() {\n            self.error_count += 1;", "        if false {\n            self.error_count += 1;")], ["visit_dir"])
+M("C10-R1-cache-index-unguarded", "C10", [(S, "if file_map.contains_key(&column_expr_str) {\n            return Variant::from_string(&file_map[&column_expr_str]);\n        }", "if !column_expr_str.is_empty() {\n            return Variant::from_string(&file_map[&column_expr_str]);\n        }")], ["get_column_expr_value"])
+M("C10-R1-order-by-index-again", "C10", [(P, "Ok(idx) => match idx.checked_sub(1).and_then(|i| fields.get(i)) {\n                                    Some(field) => field.clone(),\n                                    None => {\n                                        return Err(String::from(\n                                            \"Error parsing ORDER BY, no such column position\",\n                                        ))\n                                    }\n                                },", "Ok(idx) => fields[idx - 1].clone(),")], ["parse_order_by"])
+M("C10-R1-bool-expect-again", "C10", [(F, "            match str_to_bool(&self.string_value) {\n                Some(value) => value,\n                None => error_exit(\"Can't parse boolean value\", &self.string_value),\n            }", "            str_to_bool(&self.string_value).unwrap()")], ["to_bool"])
+M("C10-R1-rand-guard-dropped", "C10", [(F, "                        if val <= 0 {\n                            error_exit(\n                                \"Upper limit of RANDOM function must be positive\",\n                                function_arg.as_str(),\n                            );\n                        }\n", "")], ["random_range"])
+M("C10-R1-caps-len-guard", "C10", [(CAPS, "if caps.len() < 12 {\n        return String::new();\n    }", "if caps.len() < 8 {\n        return String::new();\n    }")], ["parse_capabilities"])
+M("C10-R3-errors-status-0", "C10", [(MA, "                0 => 0,\n                _ => 1,", "                0 => 0,\n                _ => 0,")], ["status_error-count"])
+M("C10-R3-error-exit-1", "C10", [(U, "std::process::exit(2);", "std::process::exit(1);")], ["status_error_exit"])
+M("C10-R3-parse-error-status-1", "C10", [(MA, "            error_message(\"query\", &err);\n            2", "            error_message(\"query\", &err);\n            1")], ["status_parse-error"])
+M("C10-R5-cond-returns-none", "C10", [(P, "            _ => {\n                self.drop_lexem();\n                Ok(left)\n            }\n        };\n\n        if let Ok(Some(expr)) = result.clone() {", "            _ => {\n                self.drop_lexem();\n                if negate { Ok(None) } else { Ok(left) }\n            }\n        };\n\n        if let Ok(Some(expr)) = result.clone() {")], ["grammar_ok-none"])
+M("C10-V-guarded-unwrap-added", "C10", [(S, "        let limit = query.limit;\n", "        let limit = query.limit;\n        let first_root = query.roots.first();\n        if first_root.is_some() {\n            let _ = first_root.unwrap();\n        }\n")], kind="variant")
